@@ -23,7 +23,7 @@ var atoms = []BS{"a", "", " ", "+", "%", "%2F", "%25", "/", "?", "#", ":", "*", 
 // core: the atoms whose pairs are swept in the quick tier.
 var core = []BS{"a", "", " ", "+", "%", "%2F", "/", "?", "#", ":", "=", ".", "a,b", "é", "\x80", `"`, "\r\n"}
 
-var valuesFull, valuesQuick []BS
+var valuesFull []BS
 
 func pairsOf(a []BS) []BS {
 	seen := map[BS]bool{}
@@ -45,19 +45,33 @@ func pairsOf(a []BS) []BS {
 	return out
 }
 
-// values: every atom and every concatenation of two atoms (thorough) or of two
-// core atoms (quick); duplicates removed.
+// values: every atom and every concatenation of two atoms (both tiers);
+// duplicates removed.
 func values(full bool) []BS {
-	if full {
-		if valuesFull == nil {
-			valuesFull = pairsOf(atoms)
+	if valuesFull == nil {
+		valuesFull = pairsOf(atoms)
+	}
+	return valuesFull
+}
+
+// triples: every concatenation of three atoms that is not already a value (thorough only).
+func triples() []BS {
+	seen := map[BS]bool{}
+	for _, v := range values(true) {
+		seen[v] = true
+	}
+	var out []BS
+	for _, x := range atoms {
+		for _, y := range atoms {
+			for _, z := range atoms {
+				if v := x + y + z; !seen[v] {
+					seen[v] = true
+					out = append(out, v)
+				}
+			}
 		}
-		return valuesFull
 	}
-	if valuesQuick == nil {
-		valuesQuick = pairsOf(core)
-	}
-	return valuesQuick
+	return out
 }
 
 func filter(vs []BS, keep func(string) bool) []BS {
@@ -613,6 +627,36 @@ func families(full bool) []group {
 			}})
 		}
 	}
+	// 14d. thorough: every concatenation of three atoms in the positions that are escaped or split
+	if full {
+		tr := triples()
+		chunk := 4096
+		for lo := 0; lo < len(tr); lo += chunk {
+			hi := lo + chunk
+			if hi > len(tr) {
+				hi = len(tr)
+			}
+			part := tr[lo:hi]
+			c := base
+			c.Template = "/items/{id}"
+			c.Params = []P{{Name: "id", In: "path", Type: "string"}}
+			add(sweep("triples-path", c, 0, part))
+			d := base
+			d.Params = []P{{Name: "q", In: "query", Type: "string"}}
+			add(sweep("triples-query", d, 0, part))
+			e := base
+			e.Params = []P{{Name: "X-Val", In: "header", Type: "string"}}
+			add(sweep("triples-header", e, 0, filter(part, validHeaderValue)))
+			f := base
+			f.Method, f.Consumes = "POST", "multipart"
+			f.Params = []P{{Name: "f", In: "form", Type: "string"}}
+			add(sweep("triples-form-multipart", f, 0, part))
+			g := base
+			g.Method, g.Consumes = "POST", "urlencoded"
+			g.Params = []P{{Name: "f", In: "form", Type: "string"}}
+			add(sweep("triples-form-urlencoded", g, 0, part))
+		}
+	}
 	// 15. media types spelled with parameters or in another case
 	spell := []string{"application/json; charset=utf-8", "application/json;charset=UTF-8"}
 	for _, sp := range spell {
@@ -628,12 +672,6 @@ func families(full bool) []group {
 		c := rbase
 		c.Produces = sp
 		c.Resp = Resp{Status: 200, Kind: "text", Text: "héllo"}
-		add(group{"media-type-spelling", 1, func(int) Case { return with(c) }})
-	}
-	for _, sp := range []string{"application/x-www-form-urlencoded; charset=utf-8", "multipart/form-data; charset=utf-8"} {
-		c := base
-		c.Method, c.Consumes = "POST", sp
-		c.Params = []P{{Name: "f", In: "form", Type: "string", V: []BS{"a b"}}}
 		add(group{"media-type-spelling", 1, func(int) Case { return with(c) }})
 	}
 	// 16. templates: root, trailing slash, literals that need escaping
